@@ -143,15 +143,19 @@ def main():
         ids = sys.argv[2:] or sorted(d for d in os.listdir(SEEDED) if os.path.isdir(os.path.join(SEEDED, d)) and d != "benign")
         props = registered_props()
         results = {}
-        with cf.ThreadPoolExecutor(5) as ex:
-            for r in ex.map(lambda s: run_one(s, props), ids):
+        def props_for(sid):
+            own = sid.split("-")[0].replace("R2", "")
+            # the two slowest checks (all-mode output evaluation) are run only for the properties they belong to
+            return [p for p in props if p not in ("C10", "C12") or own in ("C10", "C11", "C12")]
+        with cf.ThreadPoolExecutor(6) as ex:
+            for r in ex.map(lambda s: run_one(s, props_for(s)), ids):
                 own = r["id"].split("-")[0].replace("R2", "")
                 status = "CAUGHT(own)" if own in r["fired"] else ("caught(other)" if r["fired"] else ("ERROR" if r["errors"] else "MISSED"))
                 print(f"{r['id']:8s} {status:14s} fired={ {k: v[:1] for k, v in r['fired'].items()} } errors={r['errors']}")
                 results[r["id"]] = r
-        if not sys.argv[2:]:
-            with open(os.path.join(SEEDED, "RESULTS.json"), "w") as fh:
-                json.dump(results, fh, indent=1, sort_keys=True)
+                if not sys.argv[2:]:
+                    with open(os.path.join(SEEDED, "RESULTS.json"), "w") as fh:
+                        json.dump(results, fh, indent=1, sort_keys=True)
 
 
 main()
